@@ -1,31 +1,40 @@
 #!/bin/bash
-# Must-fail corpus: every patch under mutants/<PROP>/ and seeded/<PROP>[b..]/patch.diff is applied to a scratch worktree
+# Must-fail corpus: every patch under mutants/<PROP>/ and seeded/<PROP>[a-z]/patch.diff is applied to a scratch worktree
 # of /repo (under $TMPDIR, removed afterwards) and the property's check must report a VIOLATION (exit 1).
-# Usage: tools/selftest.sh [PROP...]       exit 0 iff every change is detected.
+# Usage: tools/selftest.sh [PROP...]       exit 0 iff every change is detected.   SELFTEST_JOBS=N runs N changes at a time (default 4).
 cd "$(dirname "$0")/.." || exit 2
 export GOFLAGS=-mod=mod GOPROXY=off GOTOOLCHAIN=auto; unset GOSUMDB
 [ -x bin/gcv ] || (cd engine && go build -o ../bin/gcv ./cmd/gcv) || exit 2
 PROPS="$@"; [ -z "$PROPS" ] && PROPS=$(ls mutants seeded 2>/dev/null | grep -o '^C[0-9][0-9]' | sort -u)
-T=${TMPDIR:-/tmp}; missed=0; total=0
+T=${TMPDIR:-/tmp}; LIST=$(mktemp); OUT=$(mktemp)
+n=0
 for p in $PROPS; do
   for patch in mutants/$p/*.patch seeded/$p/patch.diff seeded/${p}[a-z]/patch.diff; do
     [ -f "$patch" ] || continue
-    total=$((total+1))
-    WT=$T/gcv-selftest-$$-$total
-    git -C /repo worktree add -q --detach "$WT" HEAD || exit 2
-    if ! git -C "$WT" apply "$PWD/$patch" 2>/dev/null; then
-      echo "SKIP     $p $patch (does not apply to the current tree)"; git -C /repo worktree remove --force "$WT"; continue
-    fi
-    out=$(bin/gcv check -repo "$WT" -no-evidence "$p" 2>&1); code=$?
-    if [ $code -eq 1 ]; then
-      ob=$(echo "$out" | grep -m1 "failed obligation" | sed 's/^ *failed obligation: //' | cut -c1-140)
-      echo "DETECTED $p $patch :: $ob"
-    else
-      echo "MISSED   $p $patch (exit $code)"; missed=$((missed+1))
-    fi
-    git -C /repo worktree remove --force "$WT"
+    n=$((n+1)); echo "$p $patch $n" >> "$LIST"
   done
 done
+one() {
+  p=$1; patch=$2; k=$3
+  WT=$T/gcv-selftest-$$-$k
+  git -C /repo worktree add -q --detach "$WT" HEAD || { echo "ERROR    $p $patch (worktree)"; return; }
+  if ! git -C "$WT" apply "$PWD/$patch" 2>/dev/null; then
+    echo "SKIP     $p $patch (does not apply to the current tree)"; git -C /repo worktree remove --force "$WT"; return
+  fi
+  out=$(bin/gcv check -repo "$WT" -no-evidence "$p" 2>&1); code=$?
+  if [ $code -eq 1 ]; then
+    ob=$(echo "$out" | grep -m1 "failed obligation" | sed 's/^ *failed obligation: //' | cut -c1-140)
+    echo "DETECTED $p $patch :: $ob"
+  else
+    echo "MISSED   $p $patch (exit $code)"
+  fi
+  git -C /repo worktree remove --force "$WT"
+}
+export -f one; export T
+xargs -P "${SELFTEST_JOBS:-4}" -L 1 bash -c 'one "$0" "$1" "$2"' < "$LIST" | tee "$OUT"
+git -C /repo worktree prune
 find replays -name '*.json' -newer tools/selftest.sh -delete 2>/dev/null
-echo "selftest: $total changes, $missed missed"
-[ $missed -eq 0 ]
+total=$(wc -l < "$LIST"); missed=$(grep -c '^MISSED\|^ERROR' "$OUT"); skipped=$(grep -c '^SKIP' "$OUT")
+rm -f "$LIST" "$OUT"
+echo "selftest: $total changes, $missed missed, $skipped skipped"
+[ "$missed" -eq 0 ]
